@@ -41,8 +41,15 @@ def check_written(m, dump, written):
         return [("not-well-formed", "written file is not well-formed XML: %s" % ex)]
     tpls = root.findall("template")
     dts = [t for t in dump["templates"] if t["is_TA"]]
-    if len(tpls) != len(dts):
-        return [("template-count", "%d <template> elements for %d templates" % (len(tpls), len(dts)))]
+    dyn = [t for t in dump.get("dyn_templates", []) if t.get("is_defined")]
+    if dyn and len(tpls) == len(dts):
+        # the templates that are instantiated at run time are templates of the model, too (the others are still compared below)
+        bad.append(("dynamic-templates-not-written", "%d <template> elements for %d templates: the %d dynamic template(s) %s are not in the file" %
+                    (len(tpls), len(dts) + len(dyn), len(dyn), [t["name"] for t in dyn])))
+    elif len(tpls) != len(dts) + len(dyn):
+        return [("template-count", "%d <template> elements for %d templates" % (len(tpls), len(dts) + len(dyn)))]
+    else:
+        dts = dts + dyn if dyn else dts
     for te, td in zip(tpls, dts):
         tn = td["name"]
         if (te.findtext("name") or "").strip() != tn:
@@ -146,13 +153,16 @@ def run_shard(prefs):
                            (resp.get("write_rc"), resp.get("write_exc"), resp.get("write_what"), devs), rp)
             continue
         bad = check_written(m, resp["dump"], resp.get("written", ""))
+        dyn_missing = any(sig == "dynamic-templates-not-written" for sig, _ in bad)
         if bad:
-            part.outcome("graph-differs")
+            part.outcome("graph-differs" if not (dyn_missing and len(bad) == 1) else "graph-ok/dynamic-templates-missing")
             for sig, detail in bad[:4]:
                 part.violation("graph:" + sig, detail + " (deviations %s)" % devs, rp)
-            continue
-        part.outcome("graph-ok" + ("/with-branchpoint-edges" if has_bp_edges(m) else ""))
-        if not has_bp_edges(m):
+            if not (dyn_missing and len(bad) == 1):
+                continue
+        else:
+            part.outcome("graph-ok" + ("/with-branchpoint-edges" if has_bp_edges(m) else ""))
+        if not has_bp_edges(m) and not dyn_missing:
             rewritten.append(resp["written"])
             idx.append(k)
         if len(part.samples) < 1:
